@@ -1087,6 +1087,25 @@ func (g *Gen) copyBuiltin(c *ssa.CallCommon, args []Term, res ssa.Value) {
 
 // frameCheck: a function whose contract declares a frame (modifies / pure) must leave every other
 // pre-allocated location unchanged.
+// nestedFrameTargets lists the field locations of the struct object at base (recursively) as single frame targets.
+func (g *Gen) nestedFrameTargets(single map[string][]string, t types.Type, base string, depth int) {
+	stt, ok := structOf(t)
+	if !ok || depth > 5 || stt.NumFields() > 300 {
+		return
+	}
+	for i := 0; i < stt.NumFields(); i++ {
+		hn, _, ft := g.fieldHeap(t, i)
+		if _, isSt := structOf(ft); isSt {
+			sub := g.subref(t, i, base)
+			oh := "O_" + typeKey(ft)
+			single[oh] = append(single[oh], sub)
+			g.nestedFrameTargets(single, ft, sub, depth+1)
+			continue
+		}
+		single[hn] = append(single[hn], base)
+	}
+}
+
 func (g *Gen) frameCheck(x *ssa.Return) {
 	if g.con == nil || !g.con.hasFrame() {
 		return
@@ -1142,7 +1161,10 @@ func (g *Gen) frameCheck(x *ssa.Return) {
 						hn, _, ft := g.fieldHeap(st, i)
 						if _, isSt := structOf(ft); isSt && !g.structTransparent(ft) {
 							oh := "O_" + typeKey(ft)
-							single[oh] = append(single[oh], g.subref(st, i, xv.S))
+							sub := g.subref(st, i, xv.S)
+							single[oh] = append(single[oh], sub)
+							// a whole-value store into this field also rewrites the (unknown) fields of the embedded object
+							g.nestedFrameTargets(single, ft, sub, 0)
 							continue
 						}
 						single[hn] = append(single[hn], xv.S)
